@@ -10,6 +10,9 @@
 import ClairModel.Proofs.Codec
 import ClairModel.Gen.Enums
 
+-- every variable of a property statement is bound explicitly: a misspelt name is an error, not a new variable
+set_option autoImplicit false
+
 namespace ClairModel.Props.C17
 open ClairModel ClairModel.Bytes ClairModel.Codec
 open ClairModel.Gen.Enums
